@@ -49,6 +49,18 @@ type Program struct {
 	Ops        []Op   `json:"ops"`
 	ReadAll    bool   `json:"readall,omitempty"`    // after each step read back every key of every collection (C11)
 	TwoBuckets bool   `json:"twobuckets,omitempty"` // a second bucket with the same keys (C11)
+	// E2 (concurrent) programs:
+	Setup        []Op       `json:"setup,omitempty"`
+	Tasks        [][]Op     `json:"tasks,omitempty"`
+	NHandles     int        `json:"nhandles,omitempty"`
+	Feeds        []FeedSpec `json:"feeds,omitempty"`
+	Strategy     string     `json:"strategy,omitempty"`
+	StratArg     int        `json:"stratarg,omitempty"`
+	SchedSeed    uint64     `json:"schedseed,omitempty"`
+	Tape         []int      `json:"tape,omitempty"`
+	Scenario     string     `json:"scenario,omitempty"`
+	NoLin        bool       `json:"nolin,omitempty"`
+	NoFeedOracle bool       `json:"nofeedoracle,omitempty"`
 }
 
 type RunStats struct {
@@ -219,8 +231,8 @@ func (e *e1) run() {
 	}
 	e.env = Env{MaxDoc: p.MaxDoc}
 	s := NewSched(NewTape(p.Seed))
-	s.notes = func(name, detail string, n uint64, t *Task) {
-		if curGID() == s.rootGID {
+	s.notes = func(name, detail string, n uint64, t *Task, gid uint64) {
+		if gid == s.rootGID {
 			e.ctx.note(name, n)
 		}
 	}
